@@ -170,6 +170,8 @@ type nsSim struct {
 	dropped int
 	// observe, when set, is called after every slice of a virtual-time advance
 	observe func()
+	// debugLogs: nodes built from now on log at debug level (into the void)
+	debugLogs bool
 }
 
 func (s *nsSim) block(a, b int) {
@@ -240,8 +242,12 @@ func nsMerge(dst, src nsM) {
 	}
 }
 
-func nsLogger(buf *bytes.Buffer) *slog.Logger {
+func nsLogger(buf *bytes.Buffer, debug bool) *slog.Logger {
 	if os.Getenv("VERIF_NS_LOGS") == "" {
+		if debug {
+			// logging.level: debug is a configuration like any other: code inside "if debug enabled" blocks runs
+			return slog.New(slog.NewTextHandler(io.Discard, &slog.HandlerOptions{Level: slog.LevelDebug}))
+		}
 		return slog.New(slog.DiscardHandler)
 	}
 	return slog.New(slog.NewTextHandler(buf, &slog.HandlerOptions{Level: slog.LevelDebug}))
@@ -255,7 +261,7 @@ func (s *nsSim) addNode(ca []*nsCA, id *nsIdent, udpAddr netip.AddrPort, overrid
 	if err != nil {
 		return nil, err
 	}
-	l := nsLogger(n.logBuf)
+	l := nsLogger(n.logBuf, s.debugLogs)
 	c := config.NewC(l)
 	if err := c.LoadString(string(cb)); err != nil {
 		return nil, err
@@ -431,7 +437,20 @@ func (s *nsSim) deliver(p *nsPacket) bool {
 		}
 	}
 	up := &udp.Packet{To: p.To, From: p.From, Data: append([]byte{}, p.Data...)}
-	n.ctrl.f.outside.(*udp.TesterConn).Send(up)
+	conn := n.ctrl.f.outside.(*udp.TesterConn)
+	if len(up.Data) < header.Len && s.debugLogs {
+		// upstream's tester socket parses the header for its debug line and panics on datagrams shorter
+		// than a header (a flaw of that test double); such datagrams go straight into its receive queue,
+		// which is all Send does otherwise
+		if !n.stopped {
+			select {
+			case conn.RxPackets <- up:
+			default: // queue full: dropped, as a real socket buffer would
+			}
+		}
+	} else {
+		conn.Send(up)
+	}
 	synctest.Wait()
 	return true
 }
